@@ -15,6 +15,15 @@ CLAIMED = {
             BASE_NOTE + " Assumed: bytes.Buffer model (Write/WriteByte/Read/Bytes/Reset/NewBuffer), math.Float*bits as bit casts. "
             "tcp-backed DataInputX is outside the contracts (requires tcp == nil). The typed-array writers/readers are not under a byte-level contract yet.",
             TECH),
+    "C04": ("proof",
+            "No fabrication: every io Read* that returns normally consumed bytes that were present (postcondition of ReadBytes and of every reader built on it, byte-level contracts); "
+            "strict-prefix harnesses: after decoding a strict prefix of a valid encoding the statement following the read is unreachable (the read panics) for int, long, decimal, blob, text, "
+            "int-length bytes and a field sequence; allocation budget obligations at every make fed by decoded data in io (ReadBytes, typed arrays, decimal arrays): bytes allocated <= a "
+            "stated function of the input size in the ENTRY state, so also on paths that panic later; ReadIntBytesLimit never returns more than its limit; loops have variants.",
+            "DESIGN.md §4 C04",
+            BASE_NOTE + " Decoders above io (values, packs, steps, records) inherit no-fabrication because every token read bottoms out in ReadBytes; their own pre-allocations from decoded counts "
+            "(ListValue.Read, TextPack.Read, ...) are not under an allocation-budget contract yet. tcp-backed inputs are outside the contracts.",
+            TECH),
     "C07": ("proof",
             "For each UDP pack type a proof harness derived from the AST of Write and frozen: decode(encode(p)) at the same (symbolic) version consumes the "
             "stream exactly, re-encodes to the same token stream (checked token by token) and restores every field Write emits under the version gate under "
@@ -38,6 +47,20 @@ CLAIMED = {
             "comparator closures against the specified order (primary then child, both directions), Swap/Len, result is a permutation; Filtering returns the selected elements in order.",
             "DESIGN.md §5 C13",
             BASE_NOTE + " Assumed: sort.Sort only permutes through Swap (the ordering of the final result rests on it: the repository's Less is non-strict, see DESIGN), AnyList interface model, strconv/fmt for the text accessors.",
+            TECH),
+    "C14": ("proof",
+            "Register-level contracts (bit-vector) for RegisterSet Get/Set/UpdateIfGreater/Merge against a 5-bit field view, clz32/clz64 against a leading-zero spec, offerHashed: register = top p bits, "
+            "rank = the algorithm's rho, effect = max; semilattice lemmas (commutative, associative, idempotent offers and merges, merge = union homomorphism) as proof harnesses for precisions 4..16; "
+            "Merge returns a fresh counter and leaves its inputs untouched; byte form round-trips precision and every register word; Cardinality is total and a function of the registers only.",
+            "DESIGN.md §5 C14",
+            BASE_NOTE + " Not decidable by contracts and not claimed: the statistical error bound of the estimate. Floats are modelled by bit patterns with uninterpreted deterministic arithmetic; math.Log assumed deterministic.",
+            TECH),
+    "C15": ("proof",
+            "CRC-32 table checked symbolically against the reflected-polynomial recurrence; Hash/HashStr/Hash64/Hash64Str and the two v2 twins equal recursive spec folds (loop invariants), v2 twins equal by a shared spec; "
+            "64-bit murmur equals MurmurHash64A written from the reference; hexa32 text encoding: ToLong32(ToString32(n)) == n for every int64 and the prefix forms; bitutil compose/split inverse laws; "
+            "IPv4 int<->bytes inverse; Java-style HashCode fold. The 32-bit murmur hash differs from both references on some tails: known findings.",
+            "DESIGN.md §5 C15",
+            BASE_NOTE + " Assumed: single-digit strconv.Itoa/Atoi, []byte(str) has the string's bytes. IPv4 text conversions (strconv/strings) are outside the verifier and not claimed.",
             TECH),
     "C19": ("proof",
             "Gregorian spec functions written from the calendar rules; the three nested loops of the century table proved with full invariants (every one of the 36525 entries carries the civil date, "
